@@ -1,5 +1,6 @@
 import Imdlv.Lemmas.Verifier
 import Imdlv.Props.C03
+import Imdlv.Lemmas.LoadRoundTrip
 /-!
 # C02 — a created torrent verifies against its content and fails after any real change
 
@@ -146,5 +147,113 @@ theorem revert_restores (H : Bytes → δ) (H5 : Bytes → ε) (p : Nat) (hp0 : 
     (fs₀ fs₂ : FS) (h0 : unchanged fs₀ files) (hrev : ∀ f ∈ files, fs₂ f.1 = fs₀ f.1) :
     succeeds H H5 (createTorrent H H5 p md5 files cs) fs₂ vs = true :=
   verify_created_of_unchanged H H5 p hp0 hp1 md5 files cs vs hn fs₂ (fun f hf => by rw [hrev f hf]; exact h0 f hf)
+
+/-! ## through the file format: create → write → load → verify
+
+The theorems above speak about the verifier's `Torrent` record. Here the record goes through
+the real file format: `Create::run` assembles a typed metainfo (C05's `createMetainfo`) from the
+hasher's result, serialises it, `verify` loads the bytes back (C07's `load_written`) and cuts the
+piece string into 20-byte digests. -/
+
+section chain
+open Imdlv.Metainfo Imdlv.Load
+
+/-- the verifier's view of a loaded metainfo (`Metainfo::verify`): the piece string cut into digests -/
+def torrentOf (m : MetainfoM) : Torrent Bytes Bytes :=
+  { pieceLength := m.info.pieceLength
+    pieces := chunks 20 m.info.pieces
+    mode := match m.info.mode with
+      | .single n md5 => .single n md5
+      | .multiple fs => .multiple (fs.map fun f => { path := f.path, length := f.length, md5 := f.md5 }) }
+
+/-- what `Create::run` hands to the metainfo for a directory input: listed files with their hashed lengths and MD5s -/
+def createdMode (H5 : Bytes → Bytes) (p : Nat) (md5 : Bool) (files : List (RelPath × Bytes)) (scheds : List (List Nat)) : ModeM :=
+  let r := hashFiles p (files.zipIdx.map fun (f, i) => (f.2, scheds.getD i []))
+  .multiple (files.zipIdx.map fun (f, i) =>
+    { path := f.1, length := (r.2.getD i []).length, md5 := if md5 then some (H5 (r.2.getD i [])) else none })
+
+/-- … and the piece string: the digests of the blocks, concatenated -/
+def createdPieces (H : Bytes → Bytes) (p : Nat) (files : List (RelPath × Bytes)) (scheds : List (List Nat)) : Bytes :=
+  ((hashFiles p (files.zipIdx.map fun (f, i) => (f.2, scheds.getD i []))).1.map H).flatten
+
+theorem chunks_flatten_uniform (n : Nat) (hn : 0 < n) : ∀ (l : List Bytes), (∀ x ∈ l, x.length = n) →
+    chunks n l.flatten = l
+  | [], _ => by simp [chunks_nil]
+  | x :: t, h => by
+    rw [List.flatten_cons, chunks_append_full n hn x t.flatten (h x (List.mem_cons_self ..)),
+      chunks_flatten_uniform n hn t (fun y hy => h y (List.mem_cons_of_mem _ hy))]
+
+/-- the loaded view of what `create` assembled is the verifier-level torrent of the theorems above -/
+theorem torrentOf_created (H H5 : Bytes → Bytes) (hH : ∀ b, (H b).length = 20) (o : CreateOpts) (cb : Bytes) (now : Nat)
+    (md5 : Bool) (files : List (RelPath × Bytes)) (cs : List (List Nat)) :
+    torrentOf (createMetainfo o cb now (createdMode H5 o.pieceLength md5 files cs) (createdPieces H o.pieceLength files cs)) =
+      createTorrent H H5 o.pieceLength md5 files cs := by
+  unfold torrentOf createMetainfo createdMode createdPieces createTorrent
+  simp only
+  congr 1
+  · apply chunks_flatten_uniform 20 (by omega)
+    intro x hx
+    simp only [List.mem_map] at hx
+    obtain ⟨b, _, rfl⟩ := hx
+    exact hH b
+  · simp only [List.map_map]
+    congr 1
+
+/-- **A torrent that `imdl` has just created verifies against the unmodified input** — through
+the file: for every option record, clock value, tree of files with plain path components, read
+schedules on both sides, digest functions of the right widths, and every file-system state in
+which the listed files hold their bytes at creation: the loader accepts the written bytes and the
+verifier, run on what was loaded, succeeds. -/
+theorem created_file_verifies (urlOk : Bytes → Bool) (H H5 : Bytes → Bytes) (hH : ∀ b, (H b).length = 20)
+    (o : CreateOpts) (cb : Bytes) (now : Nat) (md5 : Bool) (files : List (RelPath × Bytes)) (cs vs : List (List Nat))
+    (hp0 : 0 < o.pieceLength) (hp1 : o.pieceLength < 2 ^ 32)
+    (hn : ∀ f ∈ files, ∀ c ∈ f.1, isNormalComp c = true)
+    (hT : (createMetainfo o cb now (createdMode H5 o.pieceLength md5 files cs) (createdPieces H o.pieceLength files cs)).Typed urlOk)
+    (hpaths : pathsOk (createdMode H5 o.pieceLength md5 files cs) = true)
+    (s : Nat) (hsize : contentSize? (createdMode H5 o.pieceLength md5 files cs) = some s)
+    (fs : FS) (hun : unchanged fs files) :
+    ∃ m span,
+      loadTorrent urlOk (createMetainfo o cb now (createdMode H5 o.pieceLength md5 files cs)
+        (createdPieces H o.pieceLength files cs)).serialize = .ok m span ∧
+      succeeds H H5 (torrentOf m) fs vs = true := by
+  refine ⟨_, _, load_serialize urlOk _ hT hpaths s hsize, ?_⟩
+  rw [torrentOf_created H H5 hH]
+  exact verify_created_of_unchanged H H5 o.pieceLength hp0 hp1 md5 files cs vs hn fs hun
+
+end chain
+
+/-! ## Non-vacuity of `created_file_verifies`: its typing hypothesis holds for a concrete creation -/
+section nonvacuous
+open Imdlv.Metainfo Imdlv.Load Imdlv.Peer
+def H0 : Bytes → Bytes := fun _ => List.replicate 20 7
+def H50 : Bytes → Bytes := fun _ => List.replicate 16 9
+def o0 : CreateOpts :=
+  { announce := some (str "http://t/a"), tiers := [], comment := none, source := none, nodes := [],
+    updateUrl := none, name := str "n", pieceLength := 2, priv := false, noCreatedBy := true, noCreationDate := true }
+def files0 : List (RelPath × Bytes) := [([[97]], [1, 2, 3])]
+example : (createMetainfo o0 [] 0 (createdMode H50 2 true files0 []) (createdPieces H0 2 files0 [])).Typed (fun _ => true) := by
+  unfold MetainfoM.Typed InfoM.Typed optUtf8
+  simp only [createMetainfo, o0]
+  refine ⟨?_, ?_, ?_, ?_, ?_, ?_, ?_, ?_⟩
+  · intro s hs; simp at hs; subst hs; exact ⟨by decide +kernel, by decide +kernel⟩
+  · intro ts hts; simp at hts
+  · intro s hs; simp at hs
+  · intro s hs; simp at hs
+  · intro d hd; simp at hd
+  · intro s hs; simp at hs; subst hs; exact ⟨by decide +kernel, by decide +kernel⟩
+  · refine ⟨by decide, by decide +kernel, by decide +kernel, ?_, by decide +kernel, by decide +kernel, ?_, ?_⟩
+    · intro s hs; simp at hs
+    · show (createdMode H50 2 true files0 []).Typed
+      have : createdMode H50 2 true files0 [] = .multiple [{ path := [[97]], length := 3, md5 := some (List.replicate 16 9) }] := by
+        decide +kernel
+      rw [this]
+      intro f hf
+      simp at hf; subst hf
+      refine ⟨by decide, ?_, ?_⟩
+      · intro c hc; simp at hc; subst hc; exact ⟨by decide +kernel, by decide⟩
+      · intro m hm; simp at hm; subst hm; rfl
+    · intro u hu; simp at hu
+  · intro ns hns; simp at hns
+end nonvacuous
 
 end Imdlv.C02
